@@ -125,6 +125,10 @@ const (
 	standaloneConfigFileName = ".regal.yaml"
 )
 
+// ErrConflictingConfigFiles is returned by FindConfig when the closest directory with a
+// configuration contains both a .regal directory and a .regal.yaml file.
+var ErrConflictingConfigFiles = errors.New("conflicting config files: both .regal directory and .regal.yaml found")
+
 // FindConfig attempts to find either the .regal directory or .regal.yaml
 // config file, and returns the appropriate file or an error.
 func FindConfig(path string) (*os.File, error) {
@@ -137,7 +141,7 @@ func FindConfig(path string) (*os.File, error) {
 		regalConfigFileParent = filepath.Dir(regalConfigFile.Name())
 
 		if regalDirParent == regalConfigFileParent {
-			return nil, errors.New("conflicting config files: both .regal directory and .regal.yaml found")
+			return nil, ErrConflictingConfigFiles
 		}
 	}
 
